@@ -276,8 +276,12 @@ def main():
         seen_classes.add(f['class'])
         new_fail.append(f)
     for f in new_fail[:5]:
+        try:
+            f = spec.shrink(ctx, f)      # a smaller history with the same failure class, when one is found quickly
+        except Exception:
+            pass
         path = write_replay(pid, 'cex', {'kind': 'counterexample', 'class': f['class'], 'why': f['why'],
-                                         'case': f['case']})
+                                         'case': f['case'], 'shrunk_from': f.get('shrunk_from')})
         violations.append(path)
         print('VIOLATION property=%s replay=%s' % (pid, path))
 
